@@ -40,7 +40,12 @@ def _leafkey(k):
 
 
 def _fn_name(f):
-  return getattr(f, '__qualname__', None) or repr(f)
+  name = getattr(f, '__qualname__', None) or repr(f)
+  owner = getattr(f, '__self__', None)
+  if owner is not None and getattr(f, '__func__', None) is not None:
+    # a bound method: the object (class, for classmethods) it is bound to is part of the callable
+    name += '@' + (owner.__qualname__ if isinstance(owner, type) else type(owner).__qualname__ + ':instance')
+  return name
 
 
 def canon(root, with_history=False, ordered_dicts=False, leaf=None):
